@@ -576,7 +576,12 @@ impl Response {
             if !is_first_iteration {
                 header = Response::_parse_http_response_header_string(&string);
                 if header.name == Header::_CONTENT_LENGTH {
-                    content_length = header.value.parse().unwrap();
+                    let boxed_content_length = header.value.parse();
+                    if boxed_content_length.is_err() {
+                        eprintln!("unable to parse Content-Length: {}", header.value);
+                        return;
+                    }
+                    content_length = boxed_content_length.unwrap();
                 }
             }
 
